@@ -5,8 +5,42 @@ From TV.Lib Require Import Base.
 From TV.Fs Require Import FsImpl FsSpec FsSafe FsDurable Facts View Refine.
 Open Scope N_scope.
 
+(* pending writes of the implementation vs the reference's writes since the last data sync *)
+Definition is_pwrite (o : pop) : bool := match o with PWrite _ _ _ => true | _ => false end.
+Definition pwrites (l : list pop) : list pop := filter is_pwrite l.
+
+(* inode i is the file that path p names, or named when it was unlinked (since the last crash) *)
+Definition owner (d : dworld) (g : list path) (p : path) (i : N) : Prop :=
+  i < next_ino (dw d) /\
+  (nget (names (dw d)) p = Some (EFile i) \/
+   (mem_path p g = true /\ (forall q, nget (names (dw d)) q <> Some (EFile i)) /\
+    (nget (dents d) p = Some (EFile i) \/
+     (nget (dents d) p = None /\ forall q, nget (dents d) q <> Some (EFile i))))).
+
+Definition wrel (d : dworld) (g : list path) (o : pop) (w : N * nat * bytes) : Prop :=
+  exists p off data i, o = PWrite p off data /\ w = (i, off, data) /\ data <> [] /\ owner d g p i.
+
+Lemma Forall2_impl {A B} (R R' : A -> B -> Prop) : forall l1 l2,
+  (forall a b, R a b -> R' a b) -> Forall2 R l1 l2 -> Forall2 R' l1 l2.
+Proof. intros l1 l2 H. induction 1; constructor; auto. Qed.
+
+Lemma Forall2_filter {A B} (R : A -> B -> Prop) (f : A -> bool) (h : B -> bool) : forall l1 l2,
+  Forall2 R l1 l2 -> (forall a b, R a b -> f a = h b) -> Forall2 R (filter f l1) (filter h l2).
+Proof.
+  intros l1 l2 H Hfh. induction H as [|a b l1 l2 Hab Hl IH]; cbn; [constructor|].
+  rewrite (Hfh a b Hab). destruct (h b); [constructor; assumption|assumption].
+Qed.
+
+Lemma filter_comm {A} (f g : A -> bool) l : filter f (filter g l) = filter g (filter f l).
+Proof.
+  induction l as [|a l IH]; cbn; [reflexivity|].
+  destruct (g a) eqn:Eg; destruct (f a) eqn:Ef; cbn; rewrite ?Eg, ?Ef, IH; reflexivity.
+Qed.
+
 Record Dur (s : fs) (d : dworld) (g : list path) : Prop := {
-  du_bs : bsize s = 0%nat /\ dbs d = 0%nat;
+  du_bs : bsize s = dbs d;
+  du_pend : Forall2 (wrel d g) (pwrites (pending s)) (dpend d);
+  du_nodup : NoDup (map fst (dents d));
   du_sy : forall p, mem_path p (synced s) = some (nget (dents d) p);
   du_df : forall p i, nget (dents d) p = Some (EFile i) -> fget (pfiles s) p = Some (iget (ddata d) i);
   du_dd : forall p, nget (dents d) p = Some EDir -> mem_path p (pdirs s) = true;
@@ -33,6 +67,13 @@ Record Dur (s : fs) (d : dworld) (g : list path) : Prop := {
 (* the shadow of d restricted to what Dur reads besides the tree *)
 Definition same_shadow (d d' : dworld) : Prop :=
   dents d' = dents d /\ ddata d' = ddata d /\ dbs d' = dbs d.
+(* what pushing o does to the reference's list of unsynced writes *)
+Definition pend_step (o : pop) (d d' : dworld) : Prop :=
+  match o with
+  | PWrite p off data =>
+      exists i, nget (names (dw d')) p = Some (EFile i) /\ data <> [] /\ dpend d' = dpend d ++ [(i, off, data)]
+  | _ => dpend d' = dpend d
+  end.
 
 (* ---- push-only transitions --------------------------------------------------------------------- *)
 (* generic: the persisted tables do not move, the log grows by ops *)
@@ -51,10 +92,21 @@ Lemma Dur_push_gen s d g o d' g' :
   (forall p i, nget (dents d) p = Some (EFile i) -> i < next_ino (dw d')) ->
   (forall i, next_ino (dw d') <= i -> iget (ddata d) i = []) ->
   (forall p, mem_path p g' = true -> mem_path p g = true \/ o = PRemoveFile p) ->
+  pend_step o d d' -> (forall p i, owner d g p i -> owner d' g' p i) ->
+  (forall p off data i, o = PWrite p off data -> nget (names (dw d')) p = Some (EFile i) -> i < next_ino (dw d')) ->
   Dur (push s o) d' g'.
 Proof.
-  intros [A B C D E F G H I J K L M N O P Q R] (S1 & S2 & S3) Hnd Hcf Hcur Hpf Hpd Hef Hk Hu Hb Hb2 Hg.
+  intros [A Ap And B C D E F G H I J K L M N O P Q R] (S1 & S2 & S3) Hnd Hcf Hcur Hpf Hpd Hef Hk Hu Hb Hb2 Hg Hps Hown Hnew.
+  assert (Hmono : Forall2 (wrel d' g') (pwrites (pending s)) (dpend d)).
+  { eapply Forall2_impl; [|exact Ap]. intros o0 w (p0 & off0 & data0 & i0 & X1 & X2 & X3 & X4).
+    exists p0, off0, data0, i0. split; [exact X1|]. split; [exact X2|]. split; [exact X3|]. apply Hown. exact X4. }
   constructor; cbn [pfiles pdirs synced pending bsize push set_pending]; rewrite ?S1, ?S2, ?S3; auto.
+  - unfold pwrites. rewrite filter_app. cbn [filter]. destruct o; cbn [is_pwrite pend_step] in *;
+      try (rewrite app_nil_r, Hps; exact Hmono).
+    destruct Hps as (i & X1 & X2 & X3). rewrite X3. apply Forall2_app; [exact Hmono|].
+    constructor; [|constructor]. exists p, off, data, i.
+    split; [reflexivity|]. split; [reflexivity|]. split; [exact X2|].
+    split; [eapply Hnew; eauto|left; exact X1].
   - intros p Hp. destruct (N p Hp) as [X|X]; [left; apply in_or_app; left; exact X|right; exact X].
   - intros p Hp. destruct (Hg p Hp) as [X|X].
     + destruct (P p X) as [Y|(Y1 & Y2 & Y3)]; [left; apply in_or_app; left; exact Y|].
@@ -71,30 +123,37 @@ Proof.
   - intros p Hin. apply in_app_iff in Hin as [Hin|[Hin|[]]]; [eapply R; exact Hin|]. eapply Hnd. exact Hin.
 Qed.
 
+Lemma owner_ext d d' g p i :
+  dents d' = dents d -> names (dw d') = names (dw d) -> next_ino (dw d') = next_ino (dw d) ->
+  owner d g p i -> owner d' g p i.
+Proof. unfold owner. intros -> -> ->. auto. Qed.
+
 Lemma Dur_ext s d d' g :
-  Dur s d g -> same_shadow d d' -> names (dw d') = names (dw d) -> next_ino (dw d') = next_ino (dw d) ->
+  Dur s d g -> same_shadow d d' -> dpend d' = dpend d ->
+  names (dw d') = names (dw d) -> next_ino (dw d') = next_ino (dw d) ->
   Dur s d' g.
 Proof.
-  intros [A B C D E F G H I J K L M N O P Q R] (S1 & S2 & S3) Hn Hx.
-  constructor; unfold is_file, is_dir in *; rewrite ?S1, ?S2, ?S3, ?Hn, ?Hx; auto.
+  intros [A Ap And B C D E F G H I J K L M N O P Q R] (S1 & S2 & S3) S4 Hn Hx.
+  constructor; unfold is_file, is_dir in *; rewrite ?S1, ?S2, ?S3, ?S4, ?Hn, ?Hx; auto.
+  eapply Forall2_impl; [|exact Ap]. intros o w (p0 & off0 & data0 & i0 & X1 & X2 & X3 & X4).
+  exists p0, off0, data0, i0. split; [exact X1|]. split; [exact X2|]. split; [exact X3|].
+  eapply owner_ext; eauto.
 Qed.
 
 (* a data operation (write / set_len) on an existing file *)
 Lemma Dur_data s d g o d' p :
   Dur s d g -> same_shadow d d' -> names (dw d') = names (dw d) -> next_ino (dw d') = next_ino (dw d) ->
-  is_data_op p o = true -> Dur (push s o) d' g.
+  is_data_op p o = true -> pend_step o d d' ->
+  (forall q j, nget (names (dw d)) q = Some (EFile j) -> j < next_ino (dw d)) ->
+  Dur (push s o) d' g.
 Proof.
-  intros HD HS Hn Hx Hdo. pose proof (Dur_ext s d d' g HD HS Hn Hx) as [A B C D E F G H I J K L M N O P Q R].
-  destruct HS as (S1 & S2 & S3).
-  eapply Dur_push_gen; eauto.
-  - repeat split; assumption.
+  intros HD HS Hn Hx Hdo Hps Hbound. pose proof HD as [A Ap And B C D E F G H I J K L M N O P Q R].
+  pose proof HS as (S1 & S2 & S3).
+  eapply (Dur_push_gen s d g o d' g HD HS); unfold is_file, is_dir in *; rewrite ?Hn, ?Hx; auto.
   - intros q Hq. subst o. discriminate.
   - intros q Hq. subst o. discriminate.
-  - intros q i. rewrite <- S2. apply E.
-  - intros q i. rewrite <- S1. apply H.
-  - intros q r i. rewrite <- S1. apply J.
-  - intros q i. rewrite <- S1. apply L.
-  - intros i. rewrite <- S2. apply M.
+  - intros q i Hq. eapply owner_ext; eauto.
+  - intros q off data i _ Hq. apply (Hbound q i Hq).
 Qed.
 
 Lemma Dur_create s d g p :
@@ -104,7 +163,7 @@ Lemma Dur_create s d g p :
                     inodes := iset (inodes (dw d)) (next_ino (dw d)) [];
                     next_ino := next_ino (dw d) + 1; shs := shs (dw d) |}) g.
 Proof.
-  intros HI HD Hn Hg. pose proof HD as [A B C D E F G H I J K L M N O P Q R].
+  intros HI HD Hn Hg. pose proof HD as [A Ap And B C D E F G H I J K L M N O P Q R].
   assert (Hnf : is_file (dw d) p = false) by (unfold is_file; rewrite Hn; reflexivity).
   assert (Hnd : is_dir (dw d) p = false) by (unfold is_dir; rewrite Hn; reflexivity).
   assert (Hpf : has_file (pfiles s) p = false).
@@ -131,13 +190,22 @@ Proof.
     + apply J. exact Hr.
   - intros q i Hq. apply L in Hq. lia.
   - intros i Hi. apply M. lia.
+  - reflexivity.
+  - intros q i (Hlt & Hown). unfold owner. cbn [dw with_dw names next_ino dents]. split; [lia|].
+    destruct Hown as [X|(X1 & X2 & X3)].
+    + left. rewrite nget_nset. destruct (path_eqb p q) eqn:Epq; [|exact X].
+      apply path_eqb_eq in Epq. subst q. congruence.
+    + right. split; [exact X1|]. split; [|exact X3].
+      intros r. rewrite nget_nset. destruct (path_eqb p r); [|apply X2].
+      intro Hr. inversion Hr. lia.
+  - intros q off data i Hq. discriminate.
 Qed.
 
 Lemma Dur_unlink s d g p i :
   InvF s (dw d) g -> Dur s d g -> nget (names (dw d)) p = Some (EFile i) ->
   Dur (push s (PRemoveFile p)) (with_dw d (set_names (dw d) (ndel (names (dw d)) p))) (p :: g).
 Proof.
-  intros HI HD Hn. pose proof HD as [A B C D E F G H I J K L M N O P Q R].
+  intros HI HD Hn. pose proof HD as [A Ap And B C D E F G H I J K L M N O P Q R].
   eapply Dur_push_gen; eauto; cbn [dw with_dw names next_ino set_names].
   - repeat split.
   - intros q Hq. discriminate.
@@ -157,13 +225,31 @@ Proof.
   - intros q Hq. rewrite mem_path_cons in Hq. destruct (path_eqb q p) eqn:Eqp.
     + apply path_eqb_eq in Eqp. subst q. right. reflexivity.
     + left. exact Hq.
+  - reflexivity.
+  - intros q j (Hlt & Hown). unfold owner. cbn [dw with_dw names next_ino dents set_names]. split; [exact Hlt|].
+    destruct Hown as [X|(X1 & X2 & X3)].
+    + destruct (path_eqb p q) eqn:Epq.
+      * apply path_eqb_eq in Epq. subst q. rewrite Hn in X. inversion X; subst j.
+        right. split; [rewrite mem_path_cons, path_eqb_refl; reflexivity|]. split.
+        -- intros r. rewrite nget_ndel. destruct (path_eqb p r) eqn:Epr; [discriminate|].
+           intro Hr. apply path_eqb_neq in Epr. apply Epr. eapply (inv_inj _ _ _ HI); eauto.
+        -- destruct (nget (dents d) p) as [[|j']|] eqn:Ed.
+           ++ exfalso. apply D in Ed. apply G in Ed. unfold is_dir in Ed. rewrite Hn in Ed. discriminate.
+           ++ left. destruct (H p j' Ed) as [Y|Y].
+              ** rewrite Hn in Y. inversion Y. reflexivity.
+              ** apply (inv_gone _ _ _ HI) in Y. unfold is_file in Y. rewrite Hn in Y. discriminate.
+           ++ right. split; [reflexivity|]. intros r Hr. assert (r = p) by (eapply J; eauto). subst r. congruence.
+      * left. rewrite nget_ndel, Epq. exact X.
+    + right. split; [rewrite mem_path_cons, X1; apply orb_true_r|]. split; [|exact X3].
+      intros r. rewrite nget_ndel. destruct (path_eqb p r); [discriminate|apply X2].
+  - intros q off data j Hq. discriminate.
 Qed.
 
 Lemma Dur_mkdir s d g p :
   Dur s d g -> nget (names (dw d)) p = None -> mem_path p g = false ->
   Dur (push s (CreateDir p)) (with_dw d (set_names (dw d) (nset (names (dw d)) p EDir))) g.
 Proof.
-  intros HD Hn Hg. pose proof HD as [A B C D E F G H I J K L M N O P Q R].
+  intros HD Hn Hg. pose proof HD as [A Ap And B C D E F G H I J K L M N O P Q R].
   eapply Dur_push_gen; eauto; cbn [dw with_dw names next_ino set_names].
   - repeat split.
   - intros q Hq. discriminate.
@@ -178,6 +264,14 @@ Proof.
   - intros q Hq. rewrite is_dir_nset. destruct (path_eqb p q) eqn:Epq; [|apply I; exact Hq].
     apply path_eqb_eq in Epq. subst q. congruence.
   - intros q r j Hr. rewrite nget_nset. destruct (path_eqb p q); [discriminate|]. apply J. exact Hr.
+  - reflexivity.
+  - intros q j (Hlt & Hown). unfold owner. cbn [dw with_dw names next_ino dents set_names]. split; [exact Hlt|].
+    destruct Hown as [X|(X1 & X2 & X3)].
+    + left. rewrite nget_nset. destruct (path_eqb p q) eqn:Epq; [|exact X].
+      apply path_eqb_eq in Epq. subst q. congruence.
+    + right. split; [exact X1|]. split; [|exact X3].
+      intros r. rewrite nget_nset. destruct (path_eqb p r); [discriminate|apply X2].
+  - intros q off data j Hq. discriminate.
 Qed.
 
 (* ---- sync_file: the file's contents become its durable contents ---------------------------- *)
@@ -185,7 +279,7 @@ Lemma Dur_sync_file s d g p i :
   InvF s (dw d) g -> Dur s d g -> nget (names (dw d)) p = Some (EFile i) ->
   Dur (fst (sync_file s p)) (data_sync d i) g.
 Proof.
-  intros HI HD Hn. pose proof HD as [A B C D E F G H I J K L M N O P Q R].
+  intros HI HD Hn. pose proof HD as [A Ap And B C D E F G H I J K L M N O P Q R].
   assert (Hex : file_exists s p = true) by (rewrite (inv_fx _ _ _ HI); apply is_file_iff; eauto).
   destruct (sync_file_views s p (inv_nr _ _ _ HI) Hex) as (_ & V1 & V2 & V3 & V4 & V5 & V6 & V7 & V8 & V9 & V10).
   set (s' := fst (sync_file s p)) in *.
@@ -197,7 +291,23 @@ Proof.
   { intros o Ho Hd. rewrite V5. apply filter_In. split; [exact Ho|]. rewrite Hd. reflexivity. }
   assert (Hsub : forall o, In o (pending s') -> In o (pending s)).
   { intros o Ho. rewrite V5 in Ho. apply filter_In in Ho. tauto. }
-  constructor; cbn [dw dents ddata dbs data_sync]; rewrite ?V6, ?V7; auto.
+  constructor; cbn [dw dents ddata dbs dpend data_sync]; rewrite ?V6, ?V7; auto.
+  - (* du_pend *)
+    rewrite V5. unfold pwrites. rewrite filter_comm. fold (pwrites (pending s)).
+    apply Forall2_filter.
+    + eapply Forall2_impl; [|exact Ap]. intros o w (p0 & off0 & data0 & i0 & X1 & X2 & X3 & X4).
+      exists p0, off0, data0, i0. split; [exact X1|]. split; [exact X2|]. split; [exact X3|].
+      eapply owner_ext; eauto.
+    + intros o w (p0 & off0 & data0 & i0 & X1 & X2 & X3 & (_ & X4)). subst o w. cbn [is_data_op fst].
+      cbn [dw data_sync dents] in X4.
+      f_equal. destruct X4 as [Y|(Y1 & Y2 & _)].
+      * destruct (path_eqb p0 p) eqn:Epp.
+        -- apply path_eqb_eq in Epp. subst p0. rewrite Hn in Y. inversion Y. symmetry. apply N.eqb_refl.
+        -- destruct (N.eqb_spec i0 i); [|reflexivity]. subst i0. apply path_eqb_neq in Epp. exfalso. apply Epp.
+           eapply (inv_inj _ _ _ HI); eauto.
+      * destruct (path_eqb p0 p) eqn:Epp.
+        -- apply path_eqb_eq in Epp. subst p0. congruence.
+        -- destruct (N.eqb_spec i0 i); [|reflexivity]. subst i0. exfalso. apply (Y2 p). exact Hn.
   - (* du_df *)
     intros q j Hq. rewrite iget_iset. destruct (path_eqb q p) eqn:Eqp.
     + apply path_eqb_eq in Eqp. subst q. destruct (H p j Hq) as [X|X]; [|congruence].
@@ -425,11 +535,42 @@ Proof.
   rewrite X. reflexivity.
 Qed.
 
+Lemma pwrites_filter_keep (f : pop -> bool) l :
+  (forall o, is_pwrite o = true -> f o = true) -> pwrites (filter f l) = pwrites l.
+Proof.
+  intro H. unfold pwrites. induction l as [|o l IH]; cbn; [reflexivity|].
+  destruct (f o) eqn:Ef; cbn; destruct (is_pwrite o) eqn:Ep; rewrite ?IH; try reflexivity.
+  rewrite (H o Ep) in Ef. discriminate.
+Qed.
+
+Lemma nodup_filter_keys {B} (f : path * B -> bool) : forall m, NoDup (map fst m) -> NoDup (map fst (filter f m)).
+Proof.
+  induction m as [|x m IH]; cbn; intro H; [constructor|]. inversion H; subst.
+  destruct (f x); cbn; [|apply IH; assumption]. constructor; [|apply IH; assumption].
+  intro Hin. apply in_map_iff in Hin as (y & Hy & Hin). apply filter_In in Hin as [Hin _].
+  apply H2. apply in_map_iff. exists y. split; assumption.
+Qed.
+
+Lemma nodup_nset m p e : NoDup (map fst m) -> NoDup (map fst (nset m p e)).
+Proof.
+  intro H. unfold nset. cbn [map fst]. constructor.
+  - intro Hin. unfold ndel in Hin. apply in_map_iff in Hin as ([q x] & Hq & Hin). cbn in Hq. subst q.
+    apply filter_In in Hin as [_ Hf]. cbn in Hf. rewrite path_eqb_refl in Hf. discriminate.
+  - apply nodup_filter_keys. exact H.
+Qed.
+
+Lemma nodup_fold_kids (nm : list (path * entry)) : forall l m, NoDup (map fst m) ->
+  NoDup (map fst (fold_left (fun m q => match nget nm q with Some e => nset m q e | None => m end) l m)).
+Proof.
+  induction l as [|q l IH]; intros m H; cbn [fold_left]; [exact H|].
+  apply IH. destruct (nget nm q); [apply nodup_nset|]; exact H.
+Qed.
+
 Lemma Dur_sync_dir s d g dd :
   InvF s (dw d) g -> Dur s d g -> nget (names (dw d)) dd = Some EDir ->
   Dur (fst (sync_dir s dd)) (dir_sync d dd) g.
 Proof.
-  intros HI HD Hdd. pose proof HD as [A B C D E F G H I J K L M N O P Q R].
+  intros HI HD Hdd. pose proof HD as [A Ap And B C D E F G H I J K L M N O P Q R].
   pose proof HI as [iA iB iC iD iE iF iG iH iI iJ].
   set (t := dw d) in *.
   assert (Hex : dir_exists s dd = true) by (rewrite iC; apply is_dir_iff; exact Hdd).
@@ -549,6 +690,30 @@ Proof.
   { intros q Hc Hq. rewrite V7. apply dx_fold_nokey. intros o Ho. destruct (Hother q Hc Hq o Ho) as (_ & X & _ & Y). auto. }
   constructor; cbn [dw dir_sync ddata dbs]; fold t.
   - (* du_bs *) rewrite Vbs. exact A.
+  - (* du_pend *)
+    rewrite V5, pwrites_filter_keep by (intros o Ho; destruct o; try discriminate; reflexivity).
+    eapply Forall2_impl; [|exact Ap]. intros o w (p0 & off0 & data0 & i0 & X1 & X2 & X3 & (Hlt & X4)).
+    exists p0, off0, data0, i0. split; [exact X1|]. split; [exact X2|]. split; [exact X3|].
+    split; [exact Hlt|]. cbn [dw dir_sync]. fold t.
+    destruct X4 as [Y|(Y1 & Y2 & Y3)]; [left; exact Y|right].
+    split; [exact Y1|]. split; [exact Y2|].
+    assert (Hother_q : forall q, child_of q dd = false -> path_eqb q dd = false ->
+              nget (dents d) q = Some (EFile i0) -> nget (dents d) p0 = Some (EFile i0) -> child_of p0 dd = true -> False).
+    { intros q Hc Hq Hdq Hdp Hcp. assert (p0 = q) by (eapply K; eauto). subst q. congruence. }
+    assert (Hall : (nget (dents d) p0 = Some (EFile i0) /\ child_of p0 dd = true) \/ (forall q, nget (dents d) q <> Some (EFile i0)) ->
+              forall q, nget (dents (dir_sync d dd)) q <> Some (EFile i0)).
+    { intros Hcase q. rewrite nget_dir_sync. fold t. destruct (child_of q dd) eqn:Hcq; [apply Y2|].
+      destruct (path_eqb q dd) eqn:Hqd; [discriminate|].
+      destruct Hcase as [[Hdp Hcp]|Hno]; [|apply Hno]. intro Hdq. eapply Hother_q; eauto. }
+    rewrite nget_dir_sync. fold t.
+    destruct (child_of p0 dd) eqn:Hcp.
+    + right. split; [apply Hgn; exact Y1|]. apply Hall.
+      destruct Y3 as [Z|[_ Z]]; [left; split; [exact Z|reflexivity]|right; exact Z].
+    + destruct (path_eqb p0 dd) eqn:Hpd.
+      * apply path_eqb_eq in Hpd. subst p0. rewrite (Hgn dd Y1) in Hdd. discriminate.
+      * destruct Y3 as [Z|[Z1 Z2]]; [left; exact Z|right]. split; [exact Z1|]. apply Hall. right. exact Z2.
+  - (* du_nodup *)
+    unfold dir_sync. cbn [dents]. apply nodup_fold_kids. apply nodup_nset. apply nodup_filter_keys. exact And.
   - (* du_sy *)
     intro q. rewrite nget_dir_sync. fold t. destruct (child_of q dd) eqn:Hc.
     + apply Wsy_child. exact Hc.
@@ -705,35 +870,179 @@ Proof.
   apply in_map. apply IH. reflexivity.
 Qed.
 
+Lemma In_nget_nodup : forall (m : list (path * entry)) q e,
+  NoDup (map fst m) -> In (q, e) m -> nget m q = Some e.
+Proof.
+  induction m as [|[r x] m IH]; intros q e Hnd Hin; [contradiction|].
+  cbn [map fst] in Hnd. inversion Hnd; subst. cbn [nget].
+  destruct Hin as [Heq|Hin].
+  - inversion Heq; subst. rewrite path_eqb_refl. reflexivity.
+  - destruct (path_eqb r q) eqn:E.
+    + apply path_eqb_eq in E. subst r. exfalso. apply H1. apply in_map_iff. exists (q, e). split; [reflexivity|exact Hin].
+    + apply IH; assumption.
+Qed.
+
+Lemma durable_ino_iff m i : NoDup (map fst m) ->
+  (durable_ino m i = true <-> exists q, nget m q = Some (EFile i)).
+Proof.
+  intro Hnd. unfold durable_ino. split.
+  - intro H. apply existsb_exists in H as ([q e] & Hin & He). destruct e as [|j]; [discriminate|].
+    cbn in He. apply N.eqb_eq in He. subst j. exists q. apply In_nget_nodup; assumption.
+  - intros [q Hq]. eapply nget_has_ino. exact Hq.
+Qed.
+
+(* the relation between a pending write and its reference entry, as the crash sees it *)
+Definition crel (s : fs) (d : dworld) (o : pop) (w : N * nat * bytes) : Prop :=
+  exists p off data i, o = PWrite p off data /\ w = (i, off, data) /\ data <> [] /\
+    mem_path p (synced s) = durable_ino (dents d) i /\
+    (mem_path p (synced s) = true -> nget (dents d) p = Some (EFile i)).
+
+Lemma wrel_crel s d g o w : InvF s (dw d) g -> Dur s d g -> wrel d g o w -> crel s d o w.
+Proof.
+  intros HI HD (p & off & data & i & X1 & X2 & X3 & (Hlt & X4)).
+  pose proof HD as [A Ap And B C D E F G H I J K L M N O P Q R].
+  exists p, off, data, i. split; [exact X1|]. split; [exact X2|]. split; [exact X3|].
+  rewrite B. destruct X4 as [Y|(Y1 & Y2 & [Y3|[Y3 Y4]])].
+  - destruct (nget (dents d) p) as [[|j]|] eqn:Ed; cbn [some].
+    + exfalso. apply D in Ed. apply G in Ed. unfold is_dir in Ed. rewrite Y in Ed. discriminate.
+    + destruct (H p j Ed) as [Z|Z].
+      * rewrite Y in Z. inversion Z; subst j. split; [|reflexivity].
+        symmetry. apply durable_ino_iff; [exact And|eauto].
+      * apply (inv_gone _ _ _ HI) in Z. unfold is_file in Z. rewrite Y in Z. discriminate.
+    + split; [|discriminate]. destruct (durable_ino (dents d) i) eqn:Edi; [|reflexivity].
+      apply durable_ino_iff in Edi as [q Hq]; [|exact And]. assert (q = p) by (eapply J; eauto). subst q. congruence.
+  - rewrite Y3. cbn [some]. split; [|reflexivity]. symmetry. apply durable_ino_iff; [exact And|eauto].
+  - rewrite Y3. cbn [some]. split; [|discriminate]. destruct (durable_ino (dents d) i) eqn:Edi; [|reflexivity].
+    apply durable_ino_iff in Edi as [q Hq]; [|exact And]. exfalso. eapply Y4. exact Hq.
+Qed.
+
+Lemma torn_writes_pwrites : forall ops s draws, torn_writes s (pwrites ops) draws = torn_writes s ops draws.
+Proof.
+  induction ops as [|o ops IH]; intros s draws; [reflexivity|].
+  unfold pwrites in *. destruct o; cbn [filter is_pwrite torn_writes]; try apply IH.
+  destruct (negb (mem_path p (synced s)) || (((length data + bsize s - 1) / bsize s) =? 0)%nat); [apply IH|].
+  apply IH.
+Qed.
+
+Lemma apply_pwrite_frame s p off data :
+  let s' := apply_op s (PWrite p off data) in
+  synced s' = synced s /\ pdirs s' = pdirs s /\ pending s' = pending s /\ bsize s' = bsize s /\
+  (forall q, has_file (pfiles s') q = has_file (pfiles s) q).
+Proof.
+  cbn [apply_op]. destruct (fget (pfiles s) p) as [c|] eqn:Ef; cbn; repeat split; auto.
+  intro q. unfold has_file. cbn [pfiles]. rewrite fget_fset. destruct (path_eqb p q) eqn:E; [|reflexivity].
+  apply path_eqb_eq in E. subst q. rewrite Ef. reflexivity.
+Qed.
+
+Lemma torn_writes_frame : forall ops s draws,
+  let s' := torn_writes s ops draws in
+  synced s' = synced s /\ pdirs s' = pdirs s /\ pending s' = pending s /\ bsize s' = bsize s /\
+  (forall q, has_file (pfiles s') q = has_file (pfiles s) q).
+Proof.
+  induction ops as [|o ops IH]; intros s draws; cbn [torn_writes]; [repeat split; auto|].
+  destruct o; try apply IH.
+  destruct (negb (mem_path p (synced s)) || (((length data + bsize s - 1) / bsize s) =? 0)%nat); [apply IH|].
+  destruct (hd 0%nat draws =? 0)%nat; [apply IH|].
+  match goal with |- context[torn_writes ?s1 ops ?dr] => destruct (IH s1 dr) as (A & B & C & D & E) end.
+  destruct (apply_pwrite_frame s p off (firstn (Nat.min (hd 0%nat draws * bsize s) (length data)) data)) as (A' & B' & C' & D' & E').
+  cbv zeta in *. split; [congruence|]. split; [congruence|]. split; [congruence|]. split; [congruence|].
+  intro q. rewrite E. apply E'.
+Qed.
+
+Lemma div_ceil_zero n b : (0 < b)%nat -> (((n + b - 1) / b =? 0) = (n =? 0))%nat.
+Proof.
+  intro Hb. destruct (Nat.eqb_spec n 0) as [->|Hn].
+  - replace (0 + b - 1)%nat with (b - 1)%nat by lia. rewrite Nat.div_small by lia. reflexivity.
+  - apply Nat.eqb_neq. intro H. apply Nat.div_small_iff in H; lia.
+Qed.
+
+(* the torn-write loop: the implementation's persisted files of durable paths track
+   the reference's contents *)
+Lemma torn_sim s0 d bs : (0 < bs)%nat ->
+  (forall p q i, nget (dents d) p = Some (EFile i) -> nget (dents d) q = Some (EFile i) -> p = q) ->
+  forall ops ws, Forall2 (crel s0 d) ops ws ->
+  forall s1 cont draws, bsize s1 = bs -> synced s1 = synced s0 ->
+  (forall p i, nget (dents d) p = Some (EFile i) -> fget (pfiles s1) p = Some (iget cont i)) ->
+  forall p i, nget (dents d) p = Some (EFile i) ->
+  fget (pfiles (torn_writes s1 ops draws)) p = Some (iget (torn bs (dents d) cont ws draws) i).
+Proof.
+  intros Hbs Hinj ops ws H. induction H as [|o w ops ws Hrel Hrest IH]; intros s1 cont draws Hb Hsy HLI p i Hp.
+  - cbn. apply HLI. exact Hp.
+  - destruct Hrel as (q & off & data & j & -> & -> & Hne & Hsd & Himp).
+    cbn [torn_writes torn]. rewrite Hb, Hsy, (div_ceil_zero _ _ Hbs).
+    assert (Hlen : (length data =? 0)%nat = false) by (destruct data; [congruence|reflexivity]).
+    rewrite Hlen, orb_false_r. cbn [negb]. rewrite andb_true_r. rewrite Hsd.
+    destruct (durable_ino (dents d) j) eqn:Edj; cbn [negb].
+    + assert (Hq : nget (dents d) q = Some (EFile j)) by (apply Himp; rewrite Hsd; reflexivity).
+      destruct (Nat.eqb_spec (hd 0%nat draws) 0) as [Hk|Hk].
+      * rewrite Hk. cbn [Nat.mul Nat.min Nat.eqb]. apply IH; auto.
+      * assert (Hn : (Nat.min (hd 0%nat draws * bs) (length data) =? 0)%nat = false).
+        { apply Nat.eqb_neq. destruct data; [congruence|]. cbn [length]. nia. }
+        rewrite Hn. 
+        set (dd := firstn (Nat.min (hd 0%nat draws * bs) (length data)) data).
+        destruct (apply_pwrite_frame s1 q off dd) as (F1 & F2 & F3 & F4 & F5). cbv zeta in *.
+        apply IH; try congruence.
+        intros p' i' Hp'. cbn [apply_op]. rewrite (HLI q j Hq). cbn [pfiles]. rewrite fget_fset, iget_iset.
+        destruct (path_eqb q p') eqn:Eqp.
+        -- apply path_eqb_eq in Eqp. subst p'. rewrite Hq in Hp'. inversion Hp'; subst i'. rewrite N.eqb_refl. reflexivity.
+        -- destruct (N.eqb_spec j i'); [|apply HLI; exact Hp'].
+           subst i'. apply path_eqb_neq in Eqp. exfalso. apply Eqp. eapply Hinj; eauto.
+    + apply IH; auto.
+Qed.
+
 Lemma crash_refines s d g draws :
   InvF s (dw d) g -> Dur s d g -> dangling d = false ->
   InvF (crash s draws) (dw (dcrash d draws)) [] /\ Dur (crash s draws) (dcrash d draws) [].
 Proof.
-  intros HI HD Hdg. pose proof HD as [A B C D E F G H I J K L M N O P Q R].
-  destruct A as [A1 A2].
+  intros HI HD Hdg. pose proof HD as [A Ap And B C D E F G H I J K L M N O P Q R].
   assert (Hents : filter (fun x => reachable (dents d) (fst x)) (dents d) = dents d).
   { apply filter_all. unfold dangling in Hdg. apply negb_false_iff in Hdg. exact Hdg. }
   assert (Hreach : forall p e, nget (dents d) p = Some e -> reachable (dents d) p = true).
   { intros p e Hp. apply nget_In in Hp. unfold dangling in Hdg. apply negb_false_iff in Hdg.
     rewrite forallb_forall in Hdg. apply (Hdg (p, e) Hp). }
-  unfold crash, dcrash. rewrite A1, A2. cbn [Nat.eqb]. rewrite Hents.
-  fold (image_files (ddata d) (dents d)).
-  set (s' := {| pfiles := filter (fun e => mem_path (fst e) (synced s)) (pfiles s);
+  (* the state after the torn writes, and the reference contents *)
+  set (s1 := if (bsize s =? 0)%nat then s else set_pending (torn_writes s (pending s) draws) (pending s)).
+  set (cnt := if (dbs d =? 0)%nat then ddata d else torn (dbs d) (dents d) (ddata d) (dpend d) draws).
+  assert (Hfr : synced s1 = synced s /\ pdirs s1 = pdirs s /\ bsize s1 = bsize s /\
+                (forall q, has_file (pfiles s1) q = has_file (pfiles s) q)).
+  { unfold s1. destruct (bsize s =? 0)%nat; [repeat split; auto|].
+    destruct (torn_writes_frame (pending s) s draws) as (X1 & X2 & X3 & X4 & X5). cbv zeta in *.
+    cbn [synced pdirs bsize pfiles set_pending]. repeat split; auto. }
+  destruct Hfr as (Fsy & Fpd & Fbs & Fhf).
+  assert (HLI : forall p i, nget (dents d) p = Some (EFile i) -> fget (pfiles s1) p = Some (iget cnt i)).
+  { unfold s1, cnt. rewrite <- A. destruct (Nat.eqb_spec (bsize s) 0) as [Hz|Hnz]; [exact C|].
+    cbn [pfiles set_pending]. rewrite <- torn_writes_pwrites.
+    apply (torn_sim s d (bsize s)); auto; try lia.
+    eapply Forall2_impl; [|exact Ap]. intros o w Hw. eapply wrel_crel; eauto. }
+  assert (Hcrash : crash s draws =
+    {| pfiles := filter (fun e => mem_path (fst e) (synced s1)) (pfiles s1);
+       pdirs := filter (fun q => mem_path q (synced s1)) (pdirs s1);
+       synced := synced s1; pending := []; bsize := bsize s1 |}) by reflexivity.
+  rewrite Hcrash. clear Hcrash.
+  assert (Hdcrash : dcrash d draws =
+    {| dw := {| names := dents d; inodes := image_files cnt (dents d); next_ino := next_ino (dw d); shs := [] |};
+       dents := dents d; ddata := image_files cnt (dents d); dpend := []; dbs := dbs d;
+       dunspec := dunspec d || dangling d |}).
+  { unfold dcrash. fold cnt. rewrite Hents. reflexivity. }
+  rewrite Hdcrash. clear Hdcrash.
+  rewrite Fsy, Fpd, Fbs.
+  set (s' := {| pfiles := filter (fun e => mem_path (fst e) (synced s)) (pfiles s1);
                 pdirs := filter (fun q => mem_path q (synced s)) (pdirs s);
                 synced := synced s; pending := []; bsize := bsize s |}).
-  assert (Hpf : forall q, fget (pfiles s') q = if mem_path q (synced s) then fget (pfiles s) q else None).
+  assert (Hpf : forall q, fget (pfiles s') q = if mem_path q (synced s) then fget (pfiles s1) q else None).
   { intro q. cbn [pfiles s']. apply (fget_filter_key (fun r => mem_path r (synced s))). }
   assert (Hpd : forall q, mem_path q (pdirs s') = mem_path q (pdirs s) && mem_path q (synced s)).
   { intro q. cbn [pdirs s']. apply mem_path_filter. }
   assert (Hfx : forall q, file_exists s' q = match nget (dents d) q with Some (EFile _) => true | _ => false end).
   { intro q. unfold file_exists. cbn [pending s' fold_left]. unfold has_file. rewrite Hpf, B.
     destruct (nget (dents d) q) as [[|i]|] eqn:Ed; cbn [some].
-    - destruct (fget (pfiles s) q) eqn:Ef; [|reflexivity]. exfalso.
+    - pose proof (Fhf q) as Xh. unfold has_file in Xh.
+      destruct (fget (pfiles s1) q) eqn:Ef; [|reflexivity]. exfalso.
       pose proof (G q (D q Ed)) as Hdir.
-      destruct (F q) as [X|X]; [unfold has_file; rewrite Ef; reflexivity| |].
+      destruct (F q) as [X|X]; [unfold has_file; destruct (fget (pfiles s) q); [reflexivity|discriminate]| |].
       + unfold is_file, is_dir in *. destruct (nget (names (dw d)) q) as [[|?]|]; discriminate.
       + apply I in X. congruence.
-    - rewrite (C q i Ed). reflexivity.
+    - rewrite (HLI q i Ed). reflexivity.
     - reflexivity. }
   assert (Hdx : forall q, dir_exists s' q = match nget (dents d) q with Some EDir => true | _ => false end).
   { intro q. unfold dir_exists. cbn [pending s' fold_left]. rewrite Hpd, B.
@@ -745,10 +1054,12 @@ Proof.
       + unfold is_dir in Hdir. rewrite X in Hdir. discriminate.
       + apply I in X. congruence.
     - apply andb_false_r. }
+  assert (Himg : forall q i, nget (dents d) q = Some (EFile i) -> iget (image_files cnt (dents d)) i = iget cnt i).
+  { intros q i Hq. rewrite iget_image, (nget_has_ino _ q i Hq). reflexivity. }
   assert (Hct : forall q i, nget (dents d) q = Some (EFile i) ->
-            fcontent s' q = iget (image_files (ddata d) (dents d)) i).
+            fcontent s' q = iget (image_files cnt (dents d)) i).
   { intros q i Hq. unfold fcontent. cbn [pending s' fold_left]. rewrite Hpf, B, Hq. cbn [some].
-    rewrite (C q i Hq). cbn [cont]. rewrite iget_image, (nget_has_ino _ q i Hq). reflexivity. }
+    rewrite (HLI q i Hq). cbn [cont]. symmetry. eapply Himg. exact Hq. }
   split.
   - constructor; cbn [dw names inodes next_ino].
     + reflexivity.
@@ -766,14 +1077,16 @@ Proof.
       unfold is_dir. cbn [names]. pose proof (Hreach p e Hp) as Hr. unfold reachable in Hr.
       rewrite forallb_forall in Hr. specialize (Hr q (in_ancestors_parent p q Epar)).
       destruct (nget (dents d) q) as [[|?]|]; try discriminate. reflexivity.
-  - constructor; cbn [dw names inodes next_ino dents ddata dbs bsize pending synced pfiles pdirs s'].
-    + split; [exact A1|reflexivity].
+  - constructor; cbn [dw names inodes next_ino dents ddata dbs dpend bsize pending synced pfiles pdirs s'].
+    + exact A.
+    + constructor.
+    + exact And.
     + exact B.
-    + intros q i Hq. change (fget (pfiles s') q = Some (iget (image_files (ddata d) (dents d)) i)).
-      rewrite Hpf, B, Hq. cbn [some]. rewrite (C q i Hq), iget_image, (nget_has_ino _ q i Hq). reflexivity.
+    + intros q i Hq. change (fget (pfiles s') q = Some (iget (image_files cnt (dents d)) i)).
+      rewrite Hpf, B, Hq. cbn [some]. rewrite (HLI q i Hq), (Himg q i Hq). reflexivity.
     + intros q Hq. change (mem_path q (pdirs s') = true). rewrite Hpd, B, Hq, (D q Hq). reflexivity.
-    + intros q i Hq. change (cont (fget (pfiles s') q) = iget (image_files (ddata d) (dents d)) i).
-      rewrite Hpf, B, Hq. cbn [some]. rewrite (C q i Hq), iget_image, (nget_has_ino _ q i Hq). reflexivity.
+    + intros q i Hq. change (cont (fget (pfiles s') q) = iget (image_files cnt (dents d)) i).
+      rewrite Hpf, B, Hq. cbn [some]. rewrite (HLI q i Hq), (Himg q i Hq). reflexivity.
     + intros q Hq. left. change (has_file (pfiles s') q = true) in Hq.
       pose proof (Hfx q) as X. unfold file_exists in X. cbn [pending s' fold_left] in X. rewrite Hq in X.
       unfold is_file. cbn [names]. destruct (nget (dents d) q) as [[|?]|]; try discriminate. reflexivity.
@@ -786,7 +1099,9 @@ Proof.
     + exact K.
     + exact L.
     + intros i Hi. rewrite iget_image.
-      destruct (existsb _ (dents d)) eqn:Ee; [|reflexivity]. apply M. exact Hi.
+      destruct (existsb _ (dents d)) eqn:Ee; [|reflexivity]. exfalso.
+      assert (Hdi : durable_ino (dents d) i = true) by exact Ee.
+      apply durable_ino_iff in Hdi as [q Hq]; [|exact And]. apply L in Hq. lia.
     + intros q Hq. right. change (has_file (pfiles s') q = true) in Hq. unfold has_file in Hq. rewrite Hpf in Hq.
       destruct (mem_path q (synced s)); [reflexivity|discriminate].
     + intros q Hq. change (mem_path q (pdirs s') = true) in Hq. rewrite Hpd in Hq.
@@ -814,7 +1129,7 @@ Proof. unfold add_pend. destruct data; reflexivity. Qed.
 
 Lemma Dur_tree s d g t1 :
   Dur s d g -> names t1 = names (dw d) -> next_ino t1 = next_ino (dw d) -> Dur s (with_dw d t1) g.
-Proof. intros HD Hn Hx. eapply Dur_ext; eauto. apply same_shadow_with_dw. Qed.
+Proof. intros HD Hn Hx. exact (Dur_ext s d (with_dw d t1) g HD (same_shadow_with_dw d t1) eq_refl Hn Hx). Qed.
 
 Lemma dstep_tree d o : (forall x, o <> Crash x) ->
   dw (fst (dstep d o)) = fst (sstep (dw d) o) /\ snd (dstep d o) = snd (sstep (dw d) o).
@@ -858,7 +1173,7 @@ Qed.
 
 Lemma dstep_readonly d o : readonly_op o = true ->
   same_shadow d (fst (dstep d o)) /\ names (dw (fst (dstep d o))) = names (dw d) /\
-  next_ino (dw (fst (dstep d o))) = next_ino (dw d).
+  next_ino (dw (fst (dstep d o))) = next_ino (dw d) /\ dpend (fst (dstep d o)) = dpend d.
 Proof.
   intro Hr. unfold dstep. destruct o; try discriminate; cbn [sstep].
   - destruct (sget (shs (dw d)) slot); cbn; repeat split.
@@ -902,8 +1217,8 @@ Proof.
     assert (Htw : tr && w = tr).
     { destruct tr; [|reflexivity]. rewrite (valid_trunc_write _ _ _ _ _ _ Hv eq_refl eq_refl). reflexivity. }
     rewrite Htw. destruct tr; cbn [wfs fst].
-    + eapply (Dur_data s d g (PSetLen p 0) _ p HD); [apply same_shadow_with_dw|reflexivity|reflexivity|].
-      cbn. apply path_eqb_refl.
+    + eapply (Dur_data s d g (PSetLen p 0) _ p HD);
+        [apply same_shadow_with_dw|reflexivity|reflexivity|cbn; apply path_eqb_refl|reflexivity|apply (inv_bound _ _ _ HF)].
     + same_tree HD.
   - assert (Hf : is_file t p = false) by (unfold is_file; rewrite En; reflexivity).
     assert (Hdx : dir_exists s p = false) by (rewrite (inv_dx _ _ _ HF); unfold is_dir; fold t; rewrite En; reflexivity).
@@ -913,9 +1228,10 @@ Proof.
       cbn in Hrc.
       pose proof (Dur_create s d g p HF HD En Hrc) as HC. fold t in HC.
       destruct (tr && w); cbn [wfs fst].
-      * eapply (Dur_data _ _ g (PSetLen p 0) _ p HC); [repeat split|reflexivity|reflexivity|].
-        cbn. apply path_eqb_refl.
-      * eapply Dur_ext; [exact HC|repeat split|reflexivity|reflexivity].
+      * eapply (Dur_data _ _ g (PSetLen p 0) _ p HC);
+          [repeat split|reflexivity|reflexivity|cbn; apply path_eqb_refl|reflexivity|].
+        apply (inv_bound _ _ _ (InvF_create s t g p HF En Hpar Hrc)).
+      * eapply Dur_ext; [exact HC|repeat split|reflexivity|reflexivity|reflexivity].
     + assert (Hcn : (if c || n then @None fs else None) = None) by (destruct (c || n); reflexivity).
       rewrite Hcn. cbn [fst snd wfs]. same_tree HD.
 Qed.
@@ -934,8 +1250,10 @@ Proof.
   assert (H1 : Dur s1 d' g).
   { unfold s1, d'. destruct data as [|b data].
     - cbn [add_pend]. apply Dur_tree; assumption.
-    - eapply (Dur_data s d g _ _ (spath sh) HD); [repeat split|exact Hn|exact Hx|].
-      cbn. apply path_eqb_refl. }
+    - eapply (Dur_data s d g _ _ (spath sh) HD); [repeat split|exact Hn|exact Hx|cbn; apply path_eqb_refl| |].
+      + cbn [pend_step add_pend dw with_dw dpend]. exists (sino sh). split; [rewrite Hn; exact Hino|].
+        split; [discriminate|reflexivity].
+      + intros q j Hq. rewrite <- Hn in Hq. rewrite <- Hx. apply (inv_bound _ _ _ HI1 q j Hq). }
   cbv zeta. destruct coin; [|exact H1].
   apply Dur_sync_file; [unfold d'; rewrite dw_add_pend; exact HI1|exact H1|].
   unfold d'. rewrite dw_add_pend. cbn [dw with_dw]. rewrite Hn. exact Hino.
@@ -994,7 +1312,8 @@ Proof.
       rewrite Hp.
       set (t1 := set_inode t (sino sh) (resize (iget (inodes t) (sino sh)) (N.to_nat n))).
       assert (H1 : Dur (push s (PSetLen (spath sh) (N.to_nat n))) (with_dw d t1) g).
-      { eapply (Dur_data s d g _ _ (spath sh) HD); [repeat split|reflexivity|reflexivity|]. cbn. apply path_eqb_refl. }
+      { eapply (Dur_data s d g _ _ (spath sh) HD);
+          [repeat split|reflexivity|reflexivity|cbn; apply path_eqb_refl|reflexivity|apply (inv_bound _ _ _ HF)]. }
       destruct coin; [|exact H1].
       apply Dur_sync_file; [|exact H1|exact Hn].
       cbn [dw with_dw]. eapply InvF_push_data; eauto; cbn; rewrite path_eqb_refl; reflexivity.
@@ -1082,9 +1401,10 @@ Proof.
           end) g).
   { intros s0 d0 i t1 H0 HD0 Hn0 Hn1 Hx1 HIa HIb.
     assert (H1 : Dur (push s0 (PSetLen p 0)) (with_dw d0 (set_inode (dw d0) i [])) g).
-    { eapply (Dur_data s0 d0 g _ _ p HD0); [repeat split|reflexivity|reflexivity|]. cbn. apply path_eqb_refl. }
+    { eapply (Dur_data s0 d0 g _ _ p HD0);
+        [repeat split|reflexivity|reflexivity|cbn; apply path_eqb_refl|reflexivity|apply (inv_bound _ _ _ H0)]. }
     destruct data as [|b data].
-    - eapply Dur_ext; [exact H1|repeat split|exact Hn1|exact Hx1].
+    - eapply Dur_ext; [exact H1|repeat split|reflexivity|exact Hn1|exact Hx1].
     - set (h := {| hpath := p; hr := false; hw := true; ha := false; hpos := 0 |}).
       set (sh := {| spath := p; sino := i; sr := false; sw := true; sa := false; spos := 0 |}).
       pose proof (dur_write_at (push s0 (PSetLen p 0)) (with_dw d0 (set_inode (dw d0) i [])) g h sh 0 (b :: data) coin t1
@@ -1165,7 +1485,7 @@ Proof.
     destruct w as [s hs]. cbn [wfs whs] in *.
     destruct (readonly_op o) eqn:Hro.
     + rewrite (step_readonly _ o Hro). cbn [wfs].
-      destruct (dstep_readonly d o Hro) as (S1 & S2 & S3).
+      destruct (dstep_readonly d o Hro) as (S1 & S2 & S3 & S4).
       replace (gone_after (dw d) g o) with g by (destruct o; try discriminate; reflexivity).
       eapply Dur_ext; eauto.
     + destruct o; try discriminate.
@@ -1182,11 +1502,13 @@ Proof.
       * replace (gone_after (dw d) g _) with g by reflexivity. apply dur_spit; assumption.
 Qed.
 
-Lemma DInv_init : DInv (init_world 0) (init_dworld 0) [].
+Lemma DInv_init b : DInv (init_world b) (init_dworld b) [].
 Proof.
-  destruct Inv_init as [A B]. split; [exact A|]. split; [exact B|].
+  destruct (Inv_init b) as [A B]. split; [exact A|]. split; [exact B|].
   constructor; cbn; try discriminate.
-  - split; reflexivity.
+  - reflexivity.
+  - constructor.
+  - constructor; [intros []|constructor].
   - intro p. destruct p; reflexivity.
   - intros p i. destruct p; discriminate.
   - intros p. destruct p; [reflexivity|discriminate].
@@ -1198,7 +1520,7 @@ Proof.
   - intros p i. destruct p; discriminate.
   - reflexivity.
   - intros p H. exact H.
-  - intros p b [].
+  - intros p b0 [].
   - intros p [].
 Qed.
 
@@ -1222,7 +1544,7 @@ Proof.
     constructor; assumption.
 Qed.
 
-Theorem crash_image_lemma : forall l,
-  forallb c07_op l = true -> dsafe 0 l = true ->
-  Forall2 obs_ok (snd (drun (init_dworld 0) l)) (snd (run (init_world 0) l)).
-Proof. intros l Hal Hs. exact (drun_refines l _ _ [] DInv_init Hal Hs). Qed.
+Theorem crash_image_lemma : forall bs l,
+  forallb c07_op l = true -> dsafe bs l = true ->
+  Forall2 obs_ok (snd (drun (init_dworld bs) l)) (snd (run (init_world bs) l)).
+Proof. intros bs l Hal Hs. exact (drun_refines l _ _ [] (DInv_init bs) Hal Hs). Qed.
